@@ -1,11 +1,32 @@
-/- BDS 1,8 — crates/rs1090/src/decode/bds/bds18.rs   (STUB: not modelled yet) -/
-import Rs1090.Model.Decode.Common
+/- BDS 1,8 GICB capability report (1 of 5) — crates/rs1090/src/decode/bds/bds18.rs -/
+import Rs1090.Model.Decode.Bds17
 namespace Rs1090.Model.Bds18
-open Rs1090 Rs1090.Model
+open Rs1090 Rs1090.Model Rs1090.Model.Gicb
 
-/-- STUB -/
-def modelled : Bool := false
+def modelled : Bool := true
 
-def read : R SerFields := R.fail .other
+/-- the 56 capability bits of `GICBCapabilityReportPart1` in declaration order (BDS 3,8 first,
+    BDS 0,1 last) with their deku `map`: `fail_if_false` on bds20, bds19, bds18, bds17;
+    none on bds30, bds21, bds1f..bds1a, bds10, bds0f, bds0b..bds05; `fail_if_true` elsewhere. -/
+def flags : List (Key × Rule) := [
+  (key! "bds38", .mustFalse), (key! "bds37", .mustFalse), (key! "bds36", .mustFalse), (key! "bds35", .mustFalse),
+  (key! "bds34", .mustFalse), (key! "bds33", .mustFalse), (key! "bds32", .mustFalse), (key! "bds31", .mustFalse),
+  (key! "bds30", .any), (key! "bds2f", .mustFalse), (key! "bds2e", .mustFalse), (key! "bds2d", .mustFalse),
+  (key! "bds2c", .mustFalse), (key! "bds2b", .mustFalse), (key! "bds2a", .mustFalse), (key! "bds29", .mustFalse),
+  (key! "bds28", .mustFalse), (key! "bds27", .mustFalse), (key! "bds26", .mustFalse), (key! "bds25", .mustFalse),
+  (key! "bds24", .mustFalse), (key! "bds23", .mustFalse), (key! "bds22", .mustFalse), (key! "bds21", .any),
+  (key! "bds20", .mustTrue), (key! "bds1f", .any), (key! "bds1e", .any), (key! "bds1d", .any),
+  (key! "bds1c", .any), (key! "bds1b", .any), (key! "bds1a", .any), (key! "bds19", .mustTrue),
+  (key! "bds18", .mustTrue), (key! "bds17", .mustTrue), (key! "bds16", .mustFalse), (key! "bds15", .mustFalse),
+  (key! "bds14", .mustFalse), (key! "bds13", .mustFalse), (key! "bds12", .mustFalse), (key! "bds11", .mustFalse),
+  (key! "bds10", .any), (key! "bds0f", .any), (key! "bds0e", .mustFalse), (key! "bds0d", .mustFalse),
+  (key! "bds0c", .mustFalse), (key! "bds0b", .any), (key! "bds0a", .any), (key! "bds09", .any),
+  (key! "bds08", .any), (key! "bds07", .any), (key! "bds06", .any), (key! "bds05", .any),
+  (key! "bds04", .mustFalse), (key! "bds03", .mustFalse), (key! "bds02", .mustFalse), (key! "bds01", .mustFalse) ]
+
+/-- `GICBCapabilityReportPart1`: 56 one-bit fields, nothing else -/
+def read : R SerFields := do
+  let fs ← readFlags flags
+  pure <| tagged (key! "bds") (key! "18") (.ok fs)
 
 end Rs1090.Model.Bds18
